@@ -41,7 +41,13 @@ func verifASCII(n int) string {
 
 // verifC38Raw builds the raw text for the chosen shape.
 func verifC38Raw(maxLen int) string {
-	switch vChoose(4) {
+	switch vChoose(5) {
+	case 4:
+		// <the Docker scheme word as a host name>:<free text> - SCP-style SSH
+		// text whose host spells the Docker scheme
+		w := []string{"docker", "DoCkEr"}[vChoose(2)]
+		vLabel("docker-host-rest")
+		return w + ":" + verifASCII(vRange(0, maxLen))
 	case 0:
 		// free text
 		vLabel("raw")
